@@ -24,7 +24,8 @@ ReplyChunks(b) == CASE b \in OkLike \cup BadStrings \cup {"badbool", "badlevel",
                     [] b \in {"trunc1", "truncmid", "trunclast", "truncat"} -> ReplyLen - 1
                     [] OTHER -> 0
 
-ErrClasses == {"err_io", "err_syntax", "err_attr", "err_type", "err_cycle", "err_redef", "err_rule"}
+\* "err_256": exactly 256 errors in one file (an exit status is one byte wide)
+ErrClasses == {"err_io", "err_syntax", "err_attr", "err_type", "err_cycle", "err_redef", "err_rule", "err_256"}
 Classes    == {"clean", "warn"} \cup ErrClasses
 \* the file a generator replies with may exist already: identical (left untouched), different, or sharing a prefix with the
 \* new content - longer (the new content followed by more) or shorter (a proper prefix of it); only "identical" may be skipped
